@@ -271,3 +271,77 @@ def gen_opcode_probe(rng, op):
     for _ in range(rng.randrange(1, 6)):
         code += b"\x5b" + (b"\x00" if rng.random() < 0.5 else b"")
     return bytes(code)
+
+
+# ------------------------------------------------------------------ solver cross-check of the tie
+
+KEYWORDS = {"not", "ite", "bvadd", "bvsub", "bvmul", "bvudiv", "bvsdiv", "bvurem", "bvsrem", "bvsmod", "bvand", "bvor",
+            "bvxor", "bvshl", "bvlshr", "bvashr", "bvnot", "bvult", "bvugt", "bvslt", "bvsgt", "extract", "zero_extend",
+            "int2bv", "bv2int", "_"}
+
+
+def z3_unsat(asserts: str, timeout_s=10):
+    """True = unsat, False = sat, None = unknown/timeout; query text as printed by the model"""
+    syms = set(re.findall(r"[A-Za-z_][A-Za-z_0-9]*(?:![0-9]+)?", asserts)) - KEYWORDS
+    decls = []
+    for s_ in sorted(syms):
+        if s_ in ("calldataload", "blockhash"):
+            decls.append(f"(declare-fun {s_} ((_ BitVec 256)) (_ BitVec 256))")
+        else:
+            decls.append(f"(declare-const {s_} (_ BitVec 256))")
+    # split the top-level s-expressions of the assertion list
+    parts, depth, cur = [], 0, ""
+    for ch in asserts:
+        cur += ch
+        if ch == "(":
+            depth += 1
+        elif ch == ")":
+            depth -= 1
+            if depth == 0:
+                parts.append(cur.strip()); cur = ""
+    script = "\n".join(decls + [f"(assert {p})" for p in parts] + ["(check-sat)"])
+    try:
+        r = subprocess.run(["z3", "-in", f"-T:{timeout_s}"], input=script, capture_output=True, text=True, timeout=timeout_s + 5)
+    except subprocess.TimeoutExpired:
+        return None
+    out = r.stdout.strip().splitlines()
+    if out and out[0] == "unsat":
+        return True
+    if out and out[0] == "sat":
+        return False
+    return None
+
+
+def tie_check(case, impl, model):
+    """initial graph equal; every edge the implementation removed has a query the model says is
+    constant-false or that the system z3 finds unsat; constant-true edges are kept"""
+    if not case["line"].startswith("cfg "):
+        return None if impl == model else "replies differ"
+    if canon(case, impl) != canon(case, model):
+        return "initial graphs differ"
+    if not impl.startswith("init "):
+        return None
+    (n0, e0), (n1, e1), _ = parse_impl(impl)
+    qs = {}
+    body = model.split(" queries ", 1)[1] if " queries " in model else ""
+    for item in [x for x in body.split(";") if x]:
+        edge, ans = item.split("=", 1)
+        qs[tuple(edge.split(">", 1))] = ans
+    kept = set(e1)
+    for e in e0:
+        ans = qs.get(e)
+        if ans is None:
+            return f"model poses no query for edge {e}"
+        if e in kept:
+            continue
+        if ans == "T":
+            return f"edge {e[0]}>{e[1]} is mandatory (constant answer) but the implementation removed it"
+        if ans == "F":
+            continue
+        u = z3_unsat(ans)
+        if u is False:
+            return f"implementation removed edge {e[0]}>{e[1]} although its query (as the model builds it) is satisfiable"
+    for e in kept:
+        if qs.get(e) == "F":
+            return f"edge {e[0]}>{e[1]} has a constant-false answer but survived refinement"
+    return None
